@@ -177,6 +177,10 @@ enum Op {
     Preimage { i: usize, kind: usize, wrong: bool },
     Unknown { i: usize, k: u8, v: u8 },
     Update { i: usize, d: usize },
+    /// update from a descriptor of the SAME output that states other key origins
+    UpdateAlt { i: usize },
+    /// a key-origin record left by somebody else: wrong source and (taproot) wrong leaf list
+    StaleOrigin { i: usize, key: usize },
     /// an updater that records scripts / taproot data but no key origins
     SetScripts { i: usize },
     /// one key-origin record (bip32_derivation or tap_key_origins) for instance key `key`
@@ -206,6 +210,8 @@ impl Op {
             Op::Preimage { .. } => "add-wrong-preimage",
             Op::Unknown { .. } => "add-unknown",
             Op::Update { .. } => "update",
+            Op::UpdateAlt { .. } => "update-other-origins",
+            Op::StaleOrigin { .. } => "add-stale-key-origin",
             Op::SetScripts { .. } => "set-scripts-without-origins",
             Op::Deriv { .. } => "add-key-origin",
             Op::Finalize { mall: false, .. } => "finalize",
@@ -235,7 +241,7 @@ impl Op {
             }
             Op::Preimage { i, kind, .. } => Some((*i, 3, *kind)),
             Op::Unknown { i, k, .. } => Some((*i, 4, *k as usize)),
-            Op::Update { i, .. } | Op::SetScripts { i } | Op::Deriv { i, .. } => Some((*i, 5, 0)),
+            Op::Update { i, .. } | Op::UpdateAlt { i } | Op::StaleOrigin { i, .. } | Op::SetScripts { i } | Op::Deriv { i, .. } => Some((*i, 5, 0)),
             _ => None,
         }
     }
@@ -395,6 +401,11 @@ fn tap_key_view_sig(cx: &Ctx, psbt: &Psbt, i: usize) -> Option<bitcoin::taproot:
     })
 }
 
+fn stale_source() -> (bitcoin::bip32::Fingerprint, bitcoin::bip32::DerivationPath) {
+    (bitcoin::bip32::Fingerprint::from([0xaa, 0xaa, 0xaa, 0xaa]), bitcoin::bip32::DerivationPath::from_str("m/86'").unwrap())
+}
+fn stale_leaf() -> bitcoin::taproot::TapLeafHash { bitcoin::taproot::TapLeafHash::from_byte_array([0x5a; 32]) }
+
 fn origin_src(fp: &bitcoin::bip32::Fingerprint, path: &bitcoin::bip32::DerivationPath) -> Vec<u8> {
     let mut v = fp.to_bytes().to_vec();
     v.extend_from_slice(path.to_string().as_bytes());
@@ -493,6 +504,36 @@ fn op_json(cx: &Ctx, psbt: &Psbt, op: &Op) -> J {
             ("d", J::N((cx.desc_base + *d) as i64)),
             ("what", J::S(format!("update_input_with_descriptor({}, descriptor of input {})", i, d))),
         ]),
+        Op::UpdateAlt { i } => J::obj(vec![
+            ("o", J::s("upd")),
+            ("i", J::N(*i as i64)),
+            ("d", J::N((cx.desc_base + 4 + *i) as i64)),
+            ("alt", J::B(true)),
+            ("what", J::S(format!("update_input_with_descriptor({}, descriptor of the same output with OTHER key origins)", i))),
+        ]),
+        Op::StaleOrigin { i, key } => {
+            let k = &cx.pool.keys[m(*i).keys[*key]];
+            let (fp, path) = stale_source();
+            if m(*i).tap.is_some() {
+                let mut v = stale_leaf().to_byte_array().to_vec();
+                v.extend_from_slice(&origin_src(&fp, &path));
+                J::obj(vec![
+                    ("o", J::s("taporigin")),
+                    ("i", J::N(*i as i64)),
+                    ("k", J::S(dig("x", &k.xonly().serialize()))),
+                    ("v", J::S(dig("orig", &v))),
+                    ("what", J::S(format!("stale tap_key_origins entry for key #{} of input {}", key, i))),
+                ])
+            } else {
+                J::obj(vec![
+                    ("o", J::s("deriv")),
+                    ("i", J::N(*i as i64)),
+                    ("k", J::S(dig("pk", &k.pk.serialize()))),
+                    ("v", J::S(dig("src", &origin_src(&fp, &path)))),
+                    ("what", J::S(format!("stale bip32_derivation entry for key #{} of input {}", key, i))),
+                ])
+            }
+        }
         Op::SetScripts { i } => J::obj(vec![
             ("o", J::s("scripts")),
             ("i", J::N(*i as i64)),
@@ -594,6 +635,24 @@ fn exec(cx: &Ctx, psbt: &mut Psbt, op: &Op) -> Res {
                 Err(UtxoUpdateError::MismatchedScriptPubkey) => Res::Upd(4),
                 Err(UtxoUpdateError::DerivationError(_)) => Res::Upd(5),
             },
+            Op::UpdateAlt { i } => match psbt.update_input_with_descriptor(*i, &m(*i).alt_desc) {
+                Ok(()) => Res::Ok,
+                Err(UtxoUpdateError::IndexOutOfBounds(..)) => Res::Upd(1),
+                Err(UtxoUpdateError::MissingInputUtxo) => Res::Upd(2),
+                Err(UtxoUpdateError::UtxoCheck) => Res::Upd(3),
+                Err(UtxoUpdateError::MismatchedScriptPubkey) => Res::Upd(4),
+                Err(UtxoUpdateError::DerivationError(_)) => Res::Upd(5),
+            },
+            Op::StaleOrigin { i, key } => {
+                let mi = m(*i);
+                let k = &cx.pool.keys[mi.keys[*key]];
+                if mi.tap.is_some() {
+                    psbt.inputs[*i].tap_key_origins.insert(k.xonly(), (vec![stale_leaf()], stale_source()));
+                } else {
+                    psbt.inputs[*i].bip32_derivation.insert(k.pk, stale_source());
+                }
+                Res::Ok
+            }
             Op::SetScripts { i } => {
                 let mi = m(*i);
                 let a = &mut psbt.inputs[*i];
@@ -867,7 +926,7 @@ fn monitor(cx: &Ctx, step: usize, op: &Op, before: &Psbt, after: &Psbt, res: &Re
             if cx.case.inputs[*d].spk != cx.case.inputs[*i].spk {
                 v("update-accepts-wrong-descriptor", format!("update of input {} accepted the descriptor of input {}", i, d));
             } else {
-                for b in oracle::check_update(cx.pool, cx.case, *d, &after.inputs[*i], fresh) {
+                for b in oracle::check_update(cx.pool, cx.case, *d, &after.inputs[*i], fresh, false) {
                     v(&format!("update-inconsistent:{}", cx.case.inputs[*d].outer.name()), format!("update of input {} ({}): {}", i, cx.case.inputs[*d].template, b));
                 }
             }
@@ -875,6 +934,28 @@ fn monitor(cx: &Ctx, step: usize, op: &Op, before: &Psbt, after: &Psbt, res: &Re
                 if j != *i && before.inputs[j] != after.inputs[j] {
                     v("update-touched-other", format!("update of input {} changed input {}", i, j));
                 }
+            }
+        }
+        (Op::UpdateAlt { i }, Res::Ok) => {
+            if let Some(why) = utxo_inconsistent(before, *i) {
+                v("update-accepts-inconsistent-utxo", format!("update_input_with_descriptor({}) accepted utxo fields that are not tied to the referenced output: {}", i, why));
+            }
+            // after the LAST successful update every origin and leaf-hash list is what that descriptor says
+            for b in oracle::check_update(cx.pool, cx.case, *i, &after.inputs[*i], false, true) {
+                v(&format!("update-inconsistent:{}", cx.case.inputs[*i].outer.name()), format!("update of input {} ({}) from the descriptor with other key origins: {}", i, cx.case.inputs[*i].template, b));
+            }
+            for j in 0..n {
+                if j != *i && before.inputs[j] != after.inputs[j] {
+                    v("update-touched-other", format!("update of input {} changed input {}", i, j));
+                }
+            }
+        }
+        (Op::UpdateAlt { i }, r) => {
+            if before != after {
+                v("update-fail-mutated", format!("a failing update ({:?}) changed the PSBT", r));
+            }
+            if utxo_inconsistent(before, *i).is_none() {
+                v("update-rejects-own-descriptor", format!("update of input {} with the other-origins descriptor of its own output failed: {:?}", i, r));
             }
         }
         (Op::Update { i, d }, r) => {
@@ -1166,6 +1247,12 @@ fn op_pool(case: &Case, rng: &mut Rng) -> Vec<Op> {
         let m = &case.inputs[i];
         v.push(Op::Update { i, d: i });
         if rng.chance(1, 2) {
+            v.push(Op::UpdateAlt { i });
+        }
+        if rng.chance(1, 4) {
+            v.push(Op::StaleOrigin { i, key: rng.below(m.keys.len()) });
+        }
+        if rng.chance(1, 2) {
             v.push(Op::SetScripts { i });
             v.push(Op::Deriv { i, key: rng.below(m.keys.len()) });
         }
@@ -1304,7 +1391,7 @@ fn run_history(
         opj.push(op_json(cx, &before, op));
         let res = exec(cx, &mut psbt, op);
         monitor(cx, t, op, &before, &psbt, &res, &checked, &mut viols);
-        if let (Op::Update { i, .. }, Res::Ok) = (op, &res) {
+        if let (Op::Update { i, .. }, Res::Ok) | (Op::UpdateAlt { i }, Res::Ok) = (op, &res) {
             if *i < checked.len() {
                 checked[*i] = true;
             }
@@ -1442,7 +1529,7 @@ fn probes(cx: &Ctx, cid: usize, int: &mut Interner, lines: &mut Vec<String>) {
         let r = catch_unwind(AssertUnwindSafe(|| p.update_input_with_descriptor(j, &m.desc)));
         match r {
             Ok(Ok(())) => {
-                for b in oracle::check_update(cx.pool, case, j, &p.inputs[j], true) {
+                for b in oracle::check_update(cx.pool, case, j, &p.inputs[j], true, false) {
                     pv(&format!("update-inconsistent:{}", m.outer.name()), format!("fresh update with {}: {}", m.template, b));
                 }
             }
@@ -1464,6 +1551,52 @@ fn probes(cx: &Ctx, cid: usize, int: &mut Interner, lines: &mut Vec<String>) {
             ])
             .to_string(),
         );
+        // the alias descriptor: same output, other key origins (feeds the model's desc_info too)
+        if m.alt_desc.script_pubkey() != m.spk {
+            pv("selfcheck", format!("alias descriptor {} derives another script_pubkey", m.alt_desc_str));
+        }
+        let mut pa = base_psbt(case);
+        match catch_unwind(AssertUnwindSafe(|| pa.update_input_with_descriptor(j, &m.alt_desc))) {
+            Ok(Ok(())) => {
+                for b in oracle::check_update(cx.pool, case, j, &pa.inputs[j], true, true) {
+                    pv(&format!("update-inconsistent:{}", m.outer.name()), format!("fresh update with {} (other key origins): {}", m.template, b));
+                }
+            }
+            other => pv("update-rejects-own-descriptor", format!("fresh update with the other-origins descriptor of {} failed: {:?}", m.template, other.map(|x| x.err()))),
+        }
+        let ida = int.get(lines, &abs_input(&pa, j));
+        lines.push(
+            J::obj(vec![
+                ("t", J::s("desc")),
+                ("id", J::N((cx.desc_base + 4 + j) as i64)),
+                ("case", J::N(cid as i64)),
+                ("str", J::S(m.alt_desc_str.clone())),
+                ("template", J::S(format!("{} [other key origins]", m.template))),
+                ("outer", J::s(m.outer.name())),
+                ("tr", J::B(m.outer == Outer::Tr)),
+                ("segwit", J::B(m.outer.is_segwit())),
+                ("spk", J::S(dig("spk", m.spk.as_bytes()))),
+                ("fresh", J::N(ida as i64)),
+            ])
+            .to_string(),
+        );
+        // repeated update_output_with_descriptor of ONE output from the two descriptors, both
+        // orders: afterwards the output's key origins are those of the LAST descriptor
+        for first_alt in [false, true] {
+            let mut po = base_psbt(case);
+            po.unsigned_tx.output[0].script_pubkey = m.spk.clone();
+            let (d1, d2) = if first_alt { (&m.alt_desc, &m.desc) } else { (&m.desc, &m.alt_desc) };
+            let r1 = po.update_output_with_descriptor(0, d1);
+            let r2 = po.update_output_with_descriptor(0, d2);
+            if r1.is_err() || r2.is_err() {
+                pv("update-output-inconsistent", format!("update_output_with_descriptor with a descriptor of the output's own script failed for {}: {:?} {:?}", m.template, r1, r2));
+            } else {
+                for b in oracle::check_output_origins(cx.pool, case, j, &po.outputs[0], !first_alt) {
+                    pv(&format!("update-output-inconsistent:{}", m.outer.name()),
+                       format!("output updated twice ({} then {}) for {}: {}", if first_alt { "other origins" } else { "original" }, if first_alt { "original" } else { "other origins" }, m.template, b));
+                }
+            }
+        }
         // sighash_msg agrees with the harness' own sighash computation
         let mut cache = SighashCache::new(&case.tx);
         if let Some(msg) = m.ecdsa_msg {
@@ -1789,7 +1922,7 @@ pub fn run(args: &[String]) {
             Ok(c) => c,
             Err(e) => {
                 lines.push(J::obj(vec![("t", J::s("gen-error")), ("case", J::N(cid as i64)), ("error", J::S(e))]).to_string());
-                desc_base += 4;
+                desc_base += 8;
                 continue;
             }
         };
@@ -1797,7 +1930,7 @@ pub fn run(args: &[String]) {
         // history ids are stable under --only: case id * 10000 + running number
         hid = cid * 10_000;
         let this_base = desc_base;
-        desc_base += 4;
+        desc_base += 8;
         if let Some(o) = only {
             if o != cid {
                 continue;
@@ -2056,6 +2189,44 @@ pub fn run(args: &[String]) {
                             ])
                             .to_string(),
                         );
+                    }
+                }
+            }
+            // (g) the same input updated twice from two descriptors of the same output with different key
+            //     origins, both orders, and over a stale record left by somebody else: after the LAST
+            //     successful update the origins are those of that descriptor
+            if ini < 2 {
+                for j in 0..nin {
+                    let m = &case.inputs[j];
+                    if m.tap.is_none() && !rng.chance(1, 2) {
+                        continue;
+                    }
+                    let mut g = base_psbt(&case);
+                    for i in 0..nin {
+                        if i != j {
+                            prepare_input(&cx, &mut g, i, 2, &mut rng);
+                        }
+                    }
+                    let mut signing: Vec<Op> = (0..m.ecdsa_sigs.len()).map(|k| Op::Sig { i: j, key: k, variant: 0 }).collect();
+                    for idx in 0..m.tap_script_sigs.len() {
+                        signing.push(Op::TapScriptSig { i: j, idx, bad: false });
+                    }
+                    for kind in &m.uses_hash {
+                        signing.push(Op::Preimage { i: j, kind: *kind, wrong: false });
+                    }
+                    let tail = vec![Op::FinalizeInp { i: j, mall: false, byval: false }, Op::Extract];
+                    let starts: Vec<Vec<Op>> = vec![
+                        vec![Op::Update { i: j, d: j }, Op::UpdateAlt { i: j }],
+                        vec![Op::UpdateAlt { i: j }, Op::Update { i: j, d: j }],
+                        vec![Op::StaleOrigin { i: j, key: m.keys.len() - 1 }, Op::StaleOrigin { i: j, key: 0 }, Op::Update { i: j, d: j }],
+                        vec![Op::Update { i: j, d: j }, Op::UpdateAlt { i: j }, Op::Update { i: j, d: j }],
+                    ];
+                    for st0 in starts {
+                        let mut ops = st0;
+                        ops.extend(signing.clone());
+                        ops.extend(tail.clone());
+                        run_history(&cx, &g, &ops, "re-update", hid, cid, &mut int, &mut lines, &mut st);
+                        hid += 1;
                     }
                 }
             }
